@@ -128,8 +128,9 @@ def run(rep, pid, tier, seed):
     b.update({'tier': tier, 'seed': seed, 'seeded_cases': n, 'worker_processes': W})
     b.update(extra)
     rep.B['bounds'] = b
-    rep.explanation = ('bounded stand-in only: contracts of %s evaluated natively on the real entry points against independent oracles; '
-                       'everything outside the stated bounds is unexplored' % pid)
+    if not getattr(rep, 'explanation', None):
+        rep.explanation = ('bounded stand-in only: contracts of %s evaluated natively on the real entry points against independent oracles; '
+                           'everything outside the stated bounds is unexplored' % pid)
     for f in fails:
         if f['check'] == 'HARNESS':
             rep.error('%s harness (%s): %s' % (sp['script'], f.get('site'), str(f.get('detail'))[-400:])); continue
